@@ -110,6 +110,25 @@ def exact_percentile(lengths: list, p: float) -> Fraction:
     return Fraction(a[lo]) + frac * (a[hi] - a[lo])
 
 
+def percentile_is_exact_in_floats(lengths: list, p: float) -> bool:
+    """True when NumPy's floating-point evaluation of the interpolated percentile cannot deviate from the exact rational value,
+    so that `int(np.percentile(...))` is exactly floor(q) and no tolerance is due: either the virtual index (n-1)*p/100 is
+    computed exactly in floats (then the linear interpolation of integers is correctly rounded, hence exact whenever q is an
+    integer), or every element a virtual index within rounding distance of the exact one can touch has the same value."""
+    a = sorted(lengths)
+    n = len(a)
+    pos = Fraction(p) / 100 * (n - 1)
+    pos_f = (n - 1) * (float(p) / 100.0)
+    if Fraction(pos_f) == pos:
+        return True
+    lo = int(pos)
+    hi = min(lo + 1, n - 1)
+    touched = {a[lo], a[hi]}
+    if pos == lo and lo > 0:
+        touched.add(a[lo - 1])
+    return len(touched) == 1
+
+
 def conn_diff(r1, r2):
     if r1[0] != r2[0]:
         return None
@@ -144,7 +163,7 @@ def model_filter(m: Model, f: dict):
         cut = math.floor(q)
         alts = [[i for i, r in enumerate(R) if len(r[2]) > cut]]
         near = q - round(q)
-        if abs(near) < Fraction(1, 10**9):
+        if abs(near) < Fraction(1, 10**9) and not percentile_is_exact_in_floats([len(r[2]) for r in R], p):
             for c2 in (round(q) - 1, round(q)):
                 alt = [i for i, r in enumerate(R) if len(r[2]) > c2]
                 if alt not in alts:
